@@ -116,7 +116,32 @@ def bases(ctx):
         out.append(("gen:%d" % i, corpus_files.generated(rng)))
     for i in range(20 if ctx.thorough else 8):
         out.append(("dlm:%d" % i, delimited_base(rng)))
+    for i in range(16 if ctx.thorough else 6):
+        out.append(("lossy:%d" % i, lossy_base(rng)))
     return out
+
+
+# a self-consistent file (STRT/STOP/STEP equal the data at full precision) whose index needs more digits than a coarse
+# index format prints: the header must not change between the first and the second cycle (lasio fix b6e1b73)
+LOSSY_WOPTS = [dict(column_fmt={0: "%.1f"}), dict(fmt="%.1f"), dict(fmt="%.0f"), dict(column_fmt={0: "%.2f"}, fmt="%.4f"), dict(fmt="%g"),
+               dict(fmt="%.3e"), dict(column_fmt={0: "%10.2f"}), dict(fmt="%.2f", wrap=True), dict(version=1.2, column_fmt={0: "%.1f"})]
+
+
+def lossy_base(rng):
+    import lasgen
+    nr = rng.choice([1, 2, 3, 5])
+    s = lasgen.basic_spec(rng, nrows=nr)
+    start = rng.choice([1670.123, 0.0375, 12345.678912, 99.99951])
+    step = rng.choice([0.125, -0.125, 0.0625, 1.0003])
+    idx = ["%r" % (start + i * step) for i in range(nr)]
+    idx = [("%.6f" % float(x)).rstrip("0").rstrip(".") if "e" not in x else x for x in idx]
+    for i, row in enumerate(s.rows):
+        row[0] = idx[i]
+    stp = ("%.6f" % (float(idx[1]) - float(idx[0]))).rstrip("0").rstrip(".") if nr > 1 else "0"
+    keep = [w for w in s.well if w[0] not in ("STRT", "STOP", "STEP")]
+    s.well = [("STRT", "M", idx[0], "START"), ("STOP", "M", idx[-1], "STOP"), ("STEP", "M", stp, "STEP")] + keep
+    s.curves[0] = (s.curves[0][0], "M", "", "depth")
+    return lasgen.render(s)[0]
 
 
 EXPLICIT = [dict(STOP=1010.0), dict(STRT=0.0), dict(STEP=0.0), dict(STOP=5.5, version=1.2), dict(STRT=1.0, STOP=2.0, STEP=0.25)]
@@ -140,7 +165,7 @@ def run(ctx):
     res = lib.Result()
     rng = ctx.rng
     cases, meta, kinds, same_text, same_data = [], [], set(), [], []
-    hist = {"corpus": 0, "generated": 0, "dlm_comma_tab": 0, "not_accepted": 0, "nonblank_spacer": 0, "read_options": 0, "lhs_spacer": 0,
+    hist = {"corpus": 0, "generated": 0, "dlm_comma_tab": 0, "lossy_index_format": 0, "not_accepted": 0, "nonblank_spacer": 0, "read_options": 0, "lhs_spacer": 0,
             "column_fmt_j_gt_0": 0}
     bs = bases(ctx)
     n_corpus = sum(1 for n, _ in bs if n.startswith("corpus:"))
@@ -148,7 +173,7 @@ def run(ctx):
     per = 6 if ctx.thorough else 1
     for name, text in bs:
         for _ in range(per):
-            wkw = rng.choice(WOPTS)
+            wkw = rng.choice(LOSSY_WOPTS) if name.startswith("lossy") else rng.choice(WOPTS)
             rkw = rng.choice(ROPTS)
             k = rng.choice([1, 2, 4]) if ctx.thorough else rng.choice([1, 2])
             if NONBLANK_SPACERS and rng.random() < 0.08:
@@ -173,7 +198,8 @@ def run(ctx):
             same_data.append(len(r["texts"]) >= 2 and data_part(r["texts"][0]) == data_part(r["texts"][1]))
             meta.append((name, text, ops))
             kinds.add((name, tuple(sorted((a, str(b)) for a, b in wkw.items())), tuple(sorted(rkw.items()))))
-            hist["corpus" if name.startswith("corpus") else ("dlm_comma_tab" if name.startswith("dlm") else "generated")] += 1
+            hist["corpus" if name.startswith("corpus") else ("dlm_comma_tab" if name.startswith("dlm") else
+                                                            ("lossy_index_format" if name.startswith("lossy") else "generated"))] += 1
             hist["read_options"] += bool(rkw)
             hist["lhs_spacer"] += "lhs_spacer" in wkw
             hist["column_fmt_j_gt_0"] += any(j > 0 for j in (wkw.get("column_fmt") or {}))
